@@ -40,6 +40,15 @@ CLAIMED = {
         technique="symbolic execution of both twins + z3 equivalence queries per path pair (rewriter / rational normal "
                   "form / NRA); counterexamples replayed on the compiled kernels and on the real pipeflow",
         design="4/C07"),
+    "C04": dict(
+        text="Per enumerated in_service / opened / control_active pattern: (A) an independent reachability over the element "
+             "tables gives the supplied set and the NaN pattern of every result table of the symbolic run must match it "
+             "(decided by evaluation, labelled so in the evidence); (B) the net with every unsupplied / disabled element "
+             "deleted is executed symbolically as well, and z3 proves entry-wise equality of the Newton systems and of all "
+             "results of the supplied part for all parameter values.",
+        technique="flag patterns enumerated; symbolic execution of both descriptions + z3 equivalence queries; supplied-set "
+                  "oracle by evaluation; counterexamples replayed on the real pipeflow",
+        design="4/C04"),
     "C06": dict(
         text="Two-run equivalence by bounded model checking of the real code: the base description and a relabelled / "
              "row-permuted / differently created description are both executed symbolically from the same arbitrary state "
